@@ -26,7 +26,7 @@ RULE = (
 )
 ASSUMPTIONS = [
     "IR.version is the API's protobuf version (other values are unloadable by design)",
-    "entry points lie in their own module; symbol and expression references stay inside their module (self-contained IR)",
+    "entry points name a code block of any module of the IR; symbol and expression references stay inside their module (the property's definition of a self-contained IR)",
     "AuxData uses types this API has codecs for (unknown types are property C14)",
 ]
 REQUIRED_TAGS = {
